@@ -73,6 +73,15 @@ func runC08(r *Run) {
 			// must come from make (or from another marshal function)
 			switch x := v.(type) {
 			case *ssa.MakeSlice:
+				// as long as the message: what is marshalled is the message, not its buffer's spare capacity
+				okLen := false
+				if lc, isC := x.Len.(*ssa.Call); isC && isBuiltinCall(lc, "len") {
+					a := deref(lc.Call.Args[0])
+					okLen = rawLoadAlias(a, rawF, nil) || aliasesField(a, rawF, 0)
+				}
+				if !okLen {
+					cp.Violation(fn, instrPos(x), "marshalled length is not len(Raw)", "the bytes returned are not exactly the message (shorter: truncated; longer: followed by bytes that are not part of it)")
+				}
 			case *ssa.Extract:
 				_ = x
 			case *ssa.Call:
